@@ -282,6 +282,9 @@ def run(ctx) -> str:
     ctx.guarded("E3", lambda: rule_e3(ctx))
     ctx.guarded("E4", lambda: rule_e4(ctx))
     ctx.guarded("E5", lambda: rule_e5(ctx))
+    from . import c05
+
+    ctx.guarded("E7", lambda: c05.rule_r12(ctx, "E7"))
     ctx.assume("ThreeValuedTruth.all/any/not_ implement Kleene's strong connectives (three_valued_truth.py)")
     ctx.assume("structural predicates and SMT atoms themselves are decided by C04 / C05")
     return EXPLANATION
